@@ -132,3 +132,34 @@ Proof.
   destruct (same_media _ _ _ _ _ _ _ _ Hfc Hwf H) as (A & B & D).
   repeat split; assumption.
 Qed.
+
+(** *** The request guard of chunked mode (6ca1ef6): a request that passes it has a chunk duration
+    >= 0 - never negative; it is positive as soon as the rounded offset leaves at least one tick. *)
+Lemma guard_roundMilli a segDurMS :
+  chunkGuardOK (Some a) segDurMS = true -> 0 <= roundMilli a <= segDurMS.
+Proof.
+  unfold chunkGuardOK, roundMilli. intros H. apply andb_prop in H. destruct H as [H1 H2].
+  destruct (0 <=? a) eqn:E; [|lia]. split; [apply Z.div_pos; lia|].
+  assert (a + 500 < (segDurMS + 1) * 1000) by lia.
+  apply Z.lt_succ_r. apply Z.div_lt_upper_bound; lia.
+Qed.
+
+Lemma guard_chunkdur a segDurMS ts :
+  chunkGuardOK (Some a) segDurMS = true -> 0 < ts ->
+  0 <= chunkDurOf segDurMS (roundMilli a) ts /\
+  (1000 <= (segDurMS - roundMilli a) * ts -> 0 < chunkDurOf segDurMS (roundMilli a) ts).
+Proof.
+  intros G Hts. destruct (guard_roundMilli a segDurMS G) as [R0 R1]. unfold chunkDurOf.
+  assert (0 <= (segDurMS - roundMilli a) * ts) by nia. rewrite Z.quot_div_nonneg by lia.
+  split; [apply Z.div_pos; lia|]. intros H1. apply Z.div_str_pos. lia.
+Qed.
+
+Lemma guard_refuses guarded segDurMS :
+  chunkedRefused guarded None segDurMS = guarded /\
+  (forall a, a < 0 \/ segDurMS * 1000 <= a -> chunkedRefused guarded (Some a) segDurMS = guarded) /\
+  (forall a, 0 <= a < segDurMS * 1000 -> chunkedRefused guarded (Some a) segDurMS = false).
+Proof.
+  unfold chunkedRefused, chunkGuardOK. split; [destruct guarded; reflexivity|]. split; intros a H.
+  - destruct guarded; [|reflexivity]. cbn [andb]. destruct (0 <=? a) eqn:E1; destruct (a <? segDurMS * 1000) eqn:E2; try reflexivity; lia.
+  - destruct guarded; [|reflexivity]. cbn [andb]. destruct (0 <=? a) eqn:E1; destruct (a <? segDurMS * 1000) eqn:E2; try reflexivity; lia.
+Qed.
